@@ -71,3 +71,100 @@ pub fn call_recv(method: &Method, v10: bool) -> Result<Call<CallRecvResponse, ()
         c.into_receive().map_err(|e| format!("into_receive: {:?}", e))
     }
 }
+
+// ---------------------------------------------------------------------------------------------
+// body readers
+
+use ureq_proto::client::call::state::RecvBody as CallRecvBody;
+use ureq_proto::client::flow::state::RecvBody;
+use ureq_proto::client::flow::RecvResponseResult;
+use ureq_proto::{BodyMode, Error};
+
+pub use super::sender::Api;
+
+pub enum Reader {
+    Flow(Flow<(), RecvBody>),
+    Call(Call<CallRecvBody, ()>),
+}
+
+impl Reader {
+    /// Send a request, feed `head` (a complete response head) and enter the body state.
+    pub fn new(api: Api, method: &Method, req_v10: bool, head: &[u8]) -> Result<Reader, String> {
+        match api {
+            Api::Flow => {
+                let mut f = flow_recv(method, req_v10, &[])?;
+                match f.try_response(head) {
+                    Ok((n, Some(_))) if n == head.len() => {}
+                    other => return Err(format!("head not accepted: {:?}", other.map(|o| (o.0, o.1.is_some())))),
+                }
+                match f.proceed() {
+                    Some(RecvResponseResult::RecvBody(b)) => Ok(Reader::Flow(b)),
+                    Some(_) => Err("flow did not enter the body state".into()),
+                    None => Err("flow cannot proceed after the head".into()),
+                }
+            }
+            Api::Call => {
+                let mut c = call_recv(method, req_v10)?;
+                match c.try_response(head) {
+                    Ok(Some((n, _))) if n == head.len() => {}
+                    other => return Err(format!("head not accepted: {:?}", other.map(|o| o.map(|x| x.0)))),
+                }
+                match c.into_body() {
+                    Ok(Some(b)) => Ok(Reader::Call(b)),
+                    Ok(None) => Err("call has no body".into()),
+                    Err(e) => Err(format!("into_body: {:?}", e)),
+                }
+            }
+        }
+    }
+
+    pub fn read(&mut self, input: &[u8], out: &mut [u8]) -> Result<(usize, usize), Error> {
+        match self {
+            Reader::Flow(f) => f.read(input, out),
+            Reader::Call(c) => c.read(input, out),
+        }
+    }
+
+    pub fn set_stop(&mut self, on: bool) {
+        match self {
+            Reader::Flow(f) => f.stop_on_chunk_boundary(on),
+            Reader::Call(c) => c.stop_on_chunk_boundary(on),
+        }
+    }
+
+    pub fn on_boundary(&self) -> bool {
+        match self {
+            Reader::Flow(f) => f.is_on_chunk_boundary(),
+            Reader::Call(c) => c.is_on_chunk_boundary(),
+        }
+    }
+
+    /// The body has been received completely (for close-delimited bodies: never).
+    pub fn ended(&self) -> bool {
+        match self {
+            Reader::Flow(f) => f.can_proceed() && f.body_mode() != BodyMode::CloseDelimited,
+            Reader::Call(c) => c.is_ended(),
+        }
+    }
+
+    pub fn can_proceed(&self) -> Option<bool> {
+        match self {
+            Reader::Flow(f) => Some(f.can_proceed()),
+            Reader::Call(_) => None,
+        }
+    }
+
+    pub fn body_mode(&self) -> Option<BodyMode> {
+        match self {
+            Reader::Flow(f) => Some(f.body_mode()),
+            Reader::Call(_) => None,
+        }
+    }
+
+    pub fn close_delimited(&self) -> bool {
+        match self {
+            Reader::Flow(f) => f.body_mode() == BodyMode::CloseDelimited,
+            Reader::Call(c) => c.is_close_delimited(),
+        }
+    }
+}
